@@ -67,7 +67,8 @@ namespace adept {
       }
 
       bool is_aliased_(const Type* mem1, const Type* mem2) const {
-	return false;
+	// "left" and "right" are shallow copies if the arguments were Arrays
+	return left.is_aliased(mem1, mem2) || right.is_aliased(mem1, mem2);
       }
 
       bool all_arrays_contiguous_() const {
